@@ -65,6 +65,26 @@ impl<T> Vec<T> {
         ensures old(self)@.len() == 0 ==> r.is_none() && final(self)@ == old(self)@,
             old(self)@.len() > 0 ==> r == Some(old(self)@[0]) && final(self)@ == old(self)@.drop_first(),
     { unimplemented!() }
+    /// traps when empty
+    #[verifier::external_body]
+    pub fn pop_back_unchecked(&mut self) -> (r: T)
+        ensures old(self)@.len() > 0, r == old(self)@.last(), final(self)@ == old(self)@.drop_last(),
+    { unimplemented!() }
+    /// traps when empty
+    #[verifier::external_body]
+    pub fn pop_front_unchecked(&mut self) -> (r: T)
+        ensures old(self)@.len() > 0, r == old(self)@[0], final(self)@ == old(self)@.drop_first(),
+    { unimplemented!() }
+    /// traps when empty
+    #[verifier::external_body]
+    pub fn first_unchecked(&self) -> (r: T)
+        ensures self@.len() > 0, r == self@[0],
+    { unimplemented!() }
+    /// traps when empty
+    #[verifier::external_body]
+    pub fn last_unchecked(&self) -> (r: T)
+        ensures self@.len() > 0, r == self@[self@.len() - 1],
+    { unimplemented!() }
     /// traps when out of range
     #[verifier::external_body]
     pub fn set(&mut self, i: u32, x: T)
